@@ -8,6 +8,8 @@ import BppModel.Text.KeyvalU
 import BppModel.Text.AttrU
 import BppModel.Text.TableU
 import BppModel.Text.Vars
+import BppModel.Text.DistU
+import BppModel.Text.ToIntU
 /-
 Driver for C16 (text and option parsing never crashes, corrupts memory or hangs).
 Stateless: every op carries its inputs (strings hex-escaped, "-" = empty).  The model's answer is
@@ -131,6 +133,32 @@ def varsFuel : Nat := 400
 
 def sumLen (l : List Str) : Nat := (l.map List.length).sum
 
+/-- `at.vars` / `at.varsE`: resolveVariables on a map, any mark characters -/
+def varsOp (s : Unit) (hc hb he : String) (rest : List String) (impl : Option (List String)) : Unit × String × String :=
+  let bad := (s, "bad-op", "-")
+    match char? hc, char? hb, char? he, parsePairs rest with
+    | some c, some b, some e, some kvs =>
+      let am := Keyval.mapOfList kvs
+      let res := resolveVariablesU c b e varsFuel am
+      -- structured reading (default marks only): is the set of definitions acyclic?
+      let senv? : Option Vars.SEnv :=
+        if c == '$' && b == '(' && e == ')' then
+          am.mapM (fun kv => (Vars.parseSegs (kv.2.length + 1) kv.2).map (fun sg => (kv.1, sg)))
+        else none
+      let acyclic := match senv? with
+        | some env => Vars.AcyclicOk env
+        | none => false
+      let verdict := match impl with
+        | none => "-"
+        | some t =>
+          match implClass t with
+          -- the whitelisted clause is used only when the definitions are not acyclic AND the model
+          -- does not terminate either
+          | .error .hang => if !acyclic && isHang res then "FAIL:resolve_terminates_cyclic" else "FAIL:terminates"
+          | _ => classVerdict impl
+      (s, showR showMap res, verdict)
+    | _, _, _, _ => bad
+
 def step (s : Unit) (op : List String) (impl : Option (List String)) : Unit × String × String :=
   let bad := (s, "bad-op", "-")
   match op with
@@ -178,7 +206,7 @@ def step (s : Unit) (op : List String) (impl : Option (List String)) : Unit × S
     match unhex h, char? hd, char? hc with
     | some a, some dec, some sci =>
       let out := showBool (Number.isDecimalNumber dec sci a) ++ " " ++ showBool (Number.isDecimalInteger sci a)
-        ++ " " ++ showR (fun _ => "ok") (toDoubleClass dec sci a) ++ " " ++ showR (fun _ => "ok") (toIntClass sci a)
+        ++ " " ++ showR (fun _ => "ok") (toDoubleClass dec sci a) ++ " " ++ showR (fun _ => "ok") (toIntU sci a)
       (s, out, classVerdict impl)
     | _, _, _ => bad
   | ["tt.resizeR", h, n, hf] =>
@@ -271,29 +299,9 @@ def step (s : Unit) (op : List String) (impl : Option (List String)) : Unit × S
     match unhex hdl, unhexList rest with
     | some dl, some lines => (s, showR showMap (getAttributesMap lines dl), listVerdict impl (sumLen lines))
     | _, _ => bad
-  | "at.vars" :: hc :: hb :: he :: _n :: rest =>
-    match char? hc, char? hb, char? he, parsePairs rest with
-    | some c, some b, some e, some kvs =>
-      let am := Keyval.mapOfList kvs
-      let res := resolveVariablesU c b e varsFuel am
-      -- structured reading (default marks only): is the set of definitions acyclic?
-      let senv? : Option Vars.SEnv :=
-        if c == '$' && b == '(' && e == ')' then
-          am.mapM (fun kv => (Vars.parseSegs (kv.2.length + 1) kv.2).map (fun sg => (kv.1, sg)))
-        else none
-      let acyclic := match senv? with
-        | some env => Vars.AcyclicOk env
-        | none => false
-      let verdict := match impl with
-        | none => "-"
-        | some t =>
-          match implClass t with
-          -- the whitelisted clause is used only when the definitions are not acyclic AND the model
-          -- does not terminate either
-          | .error .hang => if !acyclic && isHang res then "FAIL:resolve_terminates_cyclic" else "FAIL:terminates"
-          | _ => classVerdict impl
-      (s, showR showMap res, verdict)
-    | _, _, _, _ => bad
+  | "at.vars" :: hc :: hb :: he :: _n :: rest => varsOp s hc hb he rest impl
+  -- the same call with `ApplicationTools::error` set (the two messages of :158 / :166 are written)
+  | "at.varsE" :: hc :: hb :: he :: _n :: rest => varsOp s hc hb he rest impl
   | ["ft.name", hp, hs] =>
     match unhex hp, char? hs with
     | some p, some c => (s, showR hex (getFileName p c), strVerdict impl p.length)
@@ -317,7 +325,20 @@ def step (s : Unit) (op : List String) (impl : Option (List String)) : Unit × S
       (s, showR (fun (rc : Nat × Nat) => "ok " ++ toString rc.1 ++ " " ++ toString rc.2) (readTable txt sp (bool? hd) rn), classVerdict impl)
     | _, _, _ => bad
   -- entry points that are not modelled: only the outcome class of the implementation is judged
-  | "dd.read" :: _ => (s, "?", classVerdict impl)
+  -- dd.read: the text stage of the reader is modelled (`DistU.lean`); when it raises, the call raises;
+  -- when it passes the outcome is decided by the unmodelled constructors (answer `?stage`)
+  | "dd.read" :: hd :: _ =>
+    match unhex hd with
+    | some d =>
+      let ans := match distStage d with
+        | .ok (.invariant _) => "?invariant"
+        | .ok .constant => "?constant"
+        | .ok (.simple v p r) => "?simple " ++ toString v.length ++ " " ++ toString p.length ++ " " ++ toString r.length
+        | .ok (.mixture p n) => "?mixture " ++ toString p.length ++ " " ++ toString n.length
+        | .ok (.standard _ n) => "?standard " ++ toString n
+        | .error e => showErr e
+      (s, ans, classVerdict impl)
+    | none => bad
   | "nc.vec" :: _ => (s, "?", classVerdict impl)
   | "nc.seq" :: _ => (s, "?", classVerdict impl)
   | "ct.parse" :: _ => (s, "?", classVerdict impl)
